@@ -8,6 +8,7 @@ import (
 	"github.com/transparency-dev/merkle/rfc6962"
 	"github.com/transparency-dev/witness/internal/persistence"
 	"github.com/transparency-dev/witness/internal/persistence/inmemory"
+	psql "github.com/transparency-dev/witness/internal/persistence/sql"
 	rt "github.com/transparency-dev/witness/internal/verifrt"
 	"golang.org/x/mod/sumdb/note"
 	"google.golang.org/grpc/codes"
@@ -50,6 +51,15 @@ func verifConfig(n, k int) *verifCfg {
 		c.signers = append(c.signers, &rt.Signer{K: wk, N: "witness"})
 	}
 	return c
+}
+
+// verifStore builds the persistence layer under test: the real in-memory store, or the
+// real SQL store over the database/sql contract model with the production pool size of one.
+func verifStore() persistence.LogStatePersistence {
+	if rt.Param("store", 0) == 1 {
+		return psql.NewPersistence(rt.NewDB(1))
+	}
+	return inmemory.NewPersistence()
 }
 
 // verifPreload puts arbitrary bytes (or nothing) into each configured slot through the real write path.
@@ -138,7 +148,7 @@ func verifIncs(evs []rt.Ev, name string, label string) (n int, labelsOK bool) {
 func VerifUpdateStep() {
 	rt.InstallMetrics()
 	c := verifConfig(rt.Param("logs", 2), rt.Param("signers", 2))
-	store := inmemory.NewPersistence()
+	store := verifStore()
 	w, err := New(Opts{Persistence: store, Signers: c.signers, KnownLogs: c.logs})
 	if err != nil {
 		rt.Unsupported("New failed")
@@ -193,27 +203,7 @@ func VerifUpdateStep() {
 
 	if rt.Prop("C01") {
 		if accepted && hadPrev {
-			rt.Assert(rt.Valid(prevRaw, c.origins[li], c.keys[li], nil), "C01/prev-verified")
-			rt.Assert(oldSize == rt.CpSize(prevRaw), "C01/oldsize-eq-stored")
-			rt.Assert(rt.CpSize(nextRaw) >= rt.CpSize(prevRaw), "C01/no-shrink")
-			if rt.CpSize(nextRaw) == rt.CpSize(prevRaw) {
-				rt.Assert(rt.Eq(rt.CpHash(nextRaw), rt.CpHash(prevRaw)), "C01/same-size-same-root")
-			} else {
-				nvc := 0
-				var vc rt.Ev
-				for _, e := range evs {
-					if e.K == "VC" {
-						nvc++
-						vc = e
-					}
-				}
-				rt.Assert(nvc == 1, "C01/vc-called-once")
-				if nvc == 1 {
-					okArgs := vc.U[0] == rt.CpSize(prevRaw) && vc.U[1] == rt.CpSize(nextRaw) && vc.U[2] == 1
-					okArgs = okArgs && rt.Eq(vc.B[0], verifProofTerm(proof)) && rt.Eq(vc.B[1], rt.CpHash(prevRaw)) && rt.Eq(vc.B[2], rt.CpHash(nextRaw))
-					rt.Assert(okArgs, "C01/vc-args-and-verdict")
-				}
-			}
+			verifC01Core(c, li, prevRaw, oldSize, nextRaw, proof, evs)
 		}
 		if accepted {
 			rt.Assert(nSign == 1 && rt.Eq(signEv.B[0], nextRaw) && rt.Eq(signEv.B[1], out), "C01/cosigned-is-next")
@@ -388,5 +378,30 @@ func verifC09(c *verifCfg, li int, hadPrev bool, prevRaw []byte, oldSize uint64,
 	}
 	if !signFailed {
 		rt.Assert(uerr == nil, "C09/8-accepted")
+	}
+}
+
+// verifC01Core states the append-only step obligations of an accepted update over a stored checkpoint.
+func verifC01Core(c *verifCfg, li int, prevRaw []byte, oldSize uint64, nextRaw []byte, proof [][]byte, evs []rt.Ev) {
+	rt.Assert(rt.Valid(prevRaw, c.origins[li], c.keys[li], nil), "C01/prev-verified")
+	rt.Assert(oldSize == rt.CpSize(prevRaw), "C01/oldsize-eq-stored")
+	rt.Assert(rt.CpSize(nextRaw) >= rt.CpSize(prevRaw), "C01/no-shrink")
+	if rt.CpSize(nextRaw) == rt.CpSize(prevRaw) {
+		rt.Assert(rt.Eq(rt.CpHash(nextRaw), rt.CpHash(prevRaw)), "C01/same-size-same-root")
+		return
+	}
+	nvc := 0
+	var vc rt.Ev
+	for _, e := range evs {
+		if e.K == "VC" {
+			nvc++
+			vc = e
+		}
+	}
+	rt.Assert(nvc == 1, "C01/vc-called-once")
+	if nvc == 1 {
+		okArgs := vc.U[0] == rt.CpSize(prevRaw) && vc.U[1] == rt.CpSize(nextRaw) && vc.U[2] == 1
+		okArgs = okArgs && rt.Eq(vc.B[0], verifProofTerm(proof)) && rt.Eq(vc.B[1], rt.CpHash(prevRaw)) && rt.Eq(vc.B[2], rt.CpHash(nextRaw))
+		rt.Assert(okArgs, "C01/vc-args-and-verdict")
 	}
 }
